@@ -200,14 +200,20 @@ class TestCasePostProcessor(cv.ChromosomeVisitor):
     ) -> None:
         for test_case_chromosome in chromosome.test_case_chromosomes:
             test_case_chromosome.accept(self)
+            if test_case_chromosome.changed:
+                # Cached fitness and coverage values of the suite are out of date, too.
+                chromosome.changed = True
 
     def visit_test_case_chromosome(  # noqa: D102
         self, chromosome: tcc.TestCaseChromosome
     ) -> None:
         for visitor in self._test_case_visitors:
+            code_before = chromosome.test_case.to_code()
             visitor.visit_default_test_case(chromosome.test_case)
             # Remove the last execution result to force re-execution of the test case
             chromosome.remove_last_execution_result()
+            if chromosome.test_case.to_code() != code_before:
+                chromosome.changed = True
 
 
 class ModificationAwareTestCaseVisitor(ABC):
